@@ -540,11 +540,7 @@ class Flow:
                 if _is_error_call(n):
                     continue
                 recv, args = _call_parts(n)
-                ptypes = _param_types(self.facts, n)
-                if k == "CXXOperatorCallExpr" and n.get("memberOp"):
-                    pt = ptypes
-                else:
-                    pt = ptypes
+                pt = _param_types(self.facts, n)
                 # out-parameters that are parser fields
                 for i, a in enumerate(args):
                     vk = _var_key(_strip(a))
@@ -745,8 +741,7 @@ def rule_attr_flow(ctx):
         ctx.saw(fn)
         n_handlers += 1
         acc = sorted(h.branches)
-        # A1 instance: the handler has an attribute table the engine could read
-        ok = bool(acc) or bool(h.delegates) or h.name_var is not None or True
+        # A1 instance: the attribute table the engine read off the handler
         ctx.ok(rule, "%s:attribute-table" % fn.short, fn.where(), fn.short,
                detail={"accepted": acc, "delegates_to": [F.short(d) for d in h.delegates],
                        "name_variable_found": h.name_var is not None})
@@ -1150,10 +1145,6 @@ def _writes_of(fn, vk):
             recv, args = _call_parts(n)
             if recv is not None and _var_key(_strip(recv)) == vk and not _callee_is_const(n):
                 out.append(n)
-            for a in args:
-                if _var_key(_strip(a)) == vk and (a.get("lv") or a.get("k") in ("DeclRefExpr", "MemberExpr")):
-                    # conservative: only non-const reference parameters write
-                    pass
     return out
 
 
@@ -1391,9 +1382,16 @@ def rule_main_funnel(ctx):
         seen_sig = {}
         for t in tries:
             cl = [c for c in (t.get("c") or []) if c.get("k") == "CXXCatchStmt"]
-            sig = "|".join(_catch_types(fx, None, c.get("excT", "")).split("::")[-1] for c in cl)
+            if t is funnel:
+                sig = "funnel"
+            else:
+                # an inner try is named after the (alphabetically first) gama method its body calls
+                body = [x for x in (t.get("c") or []) if x.get("k") != "CXXCatchStmt"]
+                names = sorted({F.short(_callee(x)) for b0 in body for x in walk(b0)
+                                if x.get("k") == "CXXMemberCallExpr" and _callee(x).startswith("GNU_gama::")})
+                sig = "try(%s)" % (names[0] if names else "?")
             seen_sig[sig] = seen_sig.get(sig, 0) + 1
-            tname = "try[%s]%s" % (sig, "" if seen_sig[sig] == 1 else "#%d" % seen_sig[sig])
+            tname = "%s%s" % (sig, "" if seen_sig[sig] == 1 else "#%d" % seen_sig[sig])
             for c in cl:
                 n_catch += 1
                 typ = _catch_types(fx, None, c.get("excT", ""))
@@ -2032,11 +2030,47 @@ def _initial_value(ctx, name, info):
     return ("S", "u")                     # indeterminate: reading it before a write is a violation
 
 
+def check_converter_contract(ctx, qn):
+    """The analysis treats `if (conv(str, member))` as: member written iff conv returned true.
+    Verified on the converter: every `return true` is dominated by a write of the reference
+    parameter and no write of it reaches a `return false`."""
+    fx = ctx.facts
+    fn = fx.fn(qn)
+    ctx.saw(fn)
+    outs = [p for p in fn.params if _is_out_ref(p["t"])]
+    if len(outs) != 1:
+        raise AnalysisBroken("%s: expected exactly one non-const reference parameter" % qn)
+    vk = ("l", outs[0]["decl"])
+    writes = _writes_of(fn, vk) + _out_param_writes(fx, fn, vk)
+    cfg = fn.cfg
+    for r in fn.walk():
+        if r.get("k") != "ReturnStmt":
+            continue
+        v = _strip((r.get("c") or [r.get("value")])[0]) if (r.get("c") or r.get("value")) else None
+        if v is None or v.get("k") != "CXXBoolLiteralExpr":
+            raise AnalysisBroken("%s: return value is not a boolean literal, the out-parameter contract "
+                                 "cannot be established" % qn)
+        truth = v.get("v") in (True, "true", 1)
+        if truth and not any(cfg.dominates(w, r) for w in writes):
+            raise AnalysisBroken("%s returns true on a path that does not write its out-parameter" % qn)
+        if not truth:
+            pr = cfg.block_of(r)
+            for w in writes:
+                pw = cfg.block_of(w)
+                if pw is None or pr is None:
+                    continue
+                if (pw[0] == pr[0] and pw[1] < pr[1]) or any(
+                        pr[0] in cfg.reachable_blocks_from(x) for x in cfg.succ.get(pw[0], [])):
+                    raise AnalysisBroken("%s writes its out-parameter on a path that returns false" % qn)
+
+
 def rule_attr_scratch(ctx):
     rule = "R-ATTR"
     fx = ctx.facts
     tb = table()["scratch"]
     model = gkf_model(ctx)
+    for qn in table()["scratch_out_param_converters"]:
+        check_converter_contract(ctx, qn)
     derived, reach = scratch_fields(ctx)
     missing = sorted(set(derived) - set(tb))
     if missing:
